@@ -401,6 +401,7 @@ type exec struct {
 
 	pos       int
 	stopped   byte // 0 or the op that stopped
+	stopMu    sync.Mutex // op 'g': the stopper goroutine sets `stopped`
 	dry       bool
 	dryTime   time.Time
 	start     time.Time
@@ -521,6 +522,7 @@ func (x *exec) construct() bool {
 }
 
 type result struct {
+	beforeStop bool // op 'g': the item came back before the concurrent stop had completed
 	has  bool // HasNext true / GetNext returned an item
 	item int
 	err  error
@@ -547,6 +549,41 @@ func (x *exec) call(op byte) (r result) {
 			}
 			r.item = i
 		}
+	case 'g', 'j':
+		// GetNext while another goroutine stops the iteration half a back-off ('g') / one and a half back-offs ('j') later
+		// (virtual time; stream cases only)
+		stopperDone := make(chan struct{})
+		delay := x.backoff / 2
+		if op == 'j' {
+			delay = 3 * x.backoff / 2
+		}
+		go func() {
+			defer close(stopperDone)
+			time.Sleep(delay)
+			x.p.Stop()()
+			x.stopMu.Lock()
+			if x.stopped == 0 {
+				x.stopped = 'S'
+			}
+			x.stopMu.Unlock()
+		}()
+		v, err := x.p.GetNext()
+		x.stopMu.Lock()
+		stoppedBeforeReturn := x.stopped != 0
+		x.stopMu.Unlock()
+		<-stopperDone
+		r.err = err
+		if err == nil {
+			r.has = true
+			i, ok := v.(int)
+			if !ok {
+				i = -1
+			}
+			r.item = i
+			if !stoppedBeforeReturn {
+				r.beforeStop = true // the item was handed over before the stop completed: allowed
+			}
+		}
 	case 'S':
 		x.p.Stop()()
 	case 'C':
@@ -568,6 +605,10 @@ func (x *exec) call(op byte) (r result) {
 func (x *exec) step(op byte) bool {
 	x.src.events = x.src.events[:0]
 	r := x.call(op)
+	if op == 'g' || op == 'j' {
+		op = 'G' // judged as a GetNext; the concurrent stop is in x.stopped / r.beforeStop
+		x.trace = append(x.trace, '~')
+	}
 	x.st.transitions++
 	now := time.Now()
 	if r.pan != nil {
@@ -660,8 +701,8 @@ func (x *exec) step(op byte) bool {
 	}
 	if r.has {
 		switch {
-		case x.stopped != 0:
-			x.fail(fmt.Sprintf("yield-after-stop:kind=%s:op=%s:stopped-by=%c", x.kind, opn, x.stopped), "R3: the iteration was stopped/closed/cancelled before this call")
+		case x.stopped != 0 && !r.beforeStop:
+			x.fail(fmt.Sprintf("yield-after-stop:kind=%s:op=%s:stopped-by=%c", x.kind, opn, x.stopped), "R3: the iteration was stopped/closed/cancelled before this call returned its item")
 		case e < 0:
 			x.fail(fmt.Sprintf("phantom-item:kind=%s:op=%s", x.kind, opn), "R1: every item was already yielded (or lost with its page)")
 		case op == 'G' && r.item != e:
@@ -1064,6 +1105,15 @@ func plan(thorough bool) (bs []batch, bd bounds) {
 		}
 		sweep(bd.PagesS2, bd.LenStream2, bd.LenStreamF-1, []time.Duration{0}, []bool{true})
 		sweep(bd.PagesSBackoff, bd.LenSBkf, bd.LenSBkf-1, bd.Backoffs[1:], []bool{true})
+		// GetNext with a Stop from another goroutine half a back-off ('g') or one and a half back-offs ('j') later, mixed with HasNext / GetNext / DryUp
+		for _, sz := range sizeSeqs(bd.PagesSBackoff, bd.Items) {
+			for _, links := range linkStrings(len(sz)-1, true) {
+				c := newColl(sz, links)
+				for _, bo := range bd.Backoffs[1:] {
+					add(batch{kind: kind, c: c, f: fault{Kind: "none"}, honour: true, backoff: bo, alpha: "HGgjD", maxLen: 3})
+				}
+			}
+		}
 		for _, sz := range sizeSeqs(bd.PagesS2, bd.Items) {
 			for _, links := range linkStrings(len(sz)-1, true) {
 				c := newColl(sz, links)
